@@ -69,10 +69,32 @@ def _index_sets(t: T):
     """selector terms a value was re-indexed with (x.nonzero(), np.where,
     np.nonzero, boolean masks)"""
     out = []
+
+    def mask(s: T) -> Optional[T]:
+        """an element-wise comparison used as a boolean mask"""
+        if s.op == "unop" and s.args[0] == "Invert":
+            return mask(s.args[1])
+        if s.op == "cmp" and not any(
+                (y.op == "attr" and y.args[1] == "size") or
+                is_call_to(y, "builtins.len") for y in s.walk()):
+            return s
+        return None
     for x in t.walk():
         if is_call_to(x, ".nonzero", "numpy.nonzero", "numpy.where",
                       "numpy.flatnonzero", "numpy.argwhere"):
             out.append(x)
+        elif x.op == "sub" and mask(x.args[1]) is not None:
+            out.append(mask(x.args[1]))          # values[mask]
+        elif is_call_to(x, "itertools.compress", "numpy.compress",
+                        "numpy.extract") and len(x.args[1]) == 2:
+            m = [mask(a) for a in x.args[1] if mask(a) is not None]
+            out.extend(m)
+        elif x.op == "comp":
+            # [d for d, keep in zip(values, mask) if keep]
+            for it, _ in x.args[2]:
+                for y in it.walk():
+                    if mask(y) is not None:
+                        out.append(mask(y))
     return out
 
 
@@ -380,6 +402,19 @@ def _nonzero_of(sel: T) -> Optional[T]:
             return inner.args[1][0]
     if is_call_to(sel, "numpy.flatnonzero") and len(sel.args[1]) == 1:
         return sel.args[1][0]
+    # boolean masks: d != 0, d > 0 (distances are norms, never negative),
+    # and the spellings with the operands swapped
+    if sel.op == "cmp":
+        a, b = sel.args[1], sel.args[2]
+        zero = lambda z: tm.is_const(z) and not isinstance(
+            z.args[1], bool) and z.args[1] == 0
+        if sel.args[0] in ("NotEq", "Gt") and zero(b):
+            return a
+        if sel.args[0] in ("NotEq", "Lt") and zero(a):
+            return b
+    if is_call_to(sel, ".astype") and sel.args[1] and \
+            sel.args[1][0] is tm.glob("builtins.bool"):
+        return tm.method_recv(sel)
     return None
 
 
